@@ -222,6 +222,25 @@ theorem blake_refines {c : Blake.Cfg} {V : Spec.Blake.Variant} (h : BlakeEnd.Pai
   rw [BlakeEnd.blake_call_eq h M salt bitlen hL, BlakeFull.fold_eq_finish h M hM bitlen hL]
   rfl
 
+/-- BLAKE with a preset counter (histories; counters of any size, in particular across 2^w and 2^2w): a final
+    `update(M,bitlen,padding=True)` on an object that holds a chain value `H`, salt words `sw`, and whose counter says that
+    `st.bitcnt` bits (whole blocks, any number) were absorbed returns the submission's digest continued from there: the
+    tail padded with the TOTAL length `st.bitcnt + L` in the length field, block counters `st.bitcnt + …`, 0 for a
+    padding-only block.  (`blake_refines` is the case H = IV, counter 0.) -/
+theorem blake_final_update_refines {c : Blake.Cfg} {V : Spec.Blake.Variant} (h : BlakeEnd.Pair c V)
+    (H sw : List (BitVec V.w)) (hH : H.length = 8) (hs : sw.length = 4)
+    (st : PadState) (hpf : st.padflag = false) (hdone : st.bitcnt % c.blocksize = 0)
+    (M : List Nat) (hM : ∀ b ∈ M, b < 256) (bitlen : Option Nat) (hL : bitlen.getD (8 * M.length) ≤ 8 * M.length) :
+    (Blake.update c ⟨H.map ofBV, sw.map ofBV, st⟩ M bitlen true).2
+      = .ok (Spec.Blake.output V
+          (Spec.Blake.finish V H sw st.bitcnt (Spec.Blake.msgBits M (bitlen.getD (8 * M.length))))) := by
+  have hb : (Padder.blakeP c.size).blocksize = c.blocksize := by
+    rcases h with ⟨rfl, rfl⟩ | ⟨rfl, rfl⟩ | ⟨rfl, rfl⟩ | ⟨rfl, rfl⟩ <;> rfl
+  exact BlakeFull.blake_update_final h H sw hH hs st hpf (by rw [hb]; exact hdone) M hM bitlen hL
+
+/-- non-vacuity for `blake_final_update_refines`: a counter just below 2^32 that is a whole number of blocks -/
+example : ({ bitcnt := 2 ^ 32 - 512 } : PadState).padflag = false ∧ (2 ^ 32 - 512) % Blake.blake256.blocksize = 0 := by decide
+
 /-- BLAKE: every call with a bit length within the message succeeds and returns exactly size/8 bytes -/
 theorem blake_digest_length {c : Blake.Cfg} {V : Spec.Blake.Variant} (h : BlakeEnd.Pair c V)
     (M : List Nat) (salt : Nat) (bitlen : Option Nat) (hL : bitlen.getD (8 * M.length) ≤ 8 * M.length) :
